@@ -29,7 +29,7 @@ MANIFEST = {
     "note": "Cell tolerance 1e-9 of the field maximum; mass ladder: error non-increasing (5 % slack) and <= 2 % at 2.5 m for cases whose footprint peak is resolved by >= 4 cells at 20 m. Cases with negative power-law velocity constant U (physically impossible, the model returns an empty footprint with a warning) are excluded.",
 }
 
-PHYS = [(zm, z0, ws, us, L, sv) for zm, z0, (ws, us), L, sv in itertools.product((2.0, 5.0, 10.0, 30.0), (0.01, 0.1, 0.5), ((3.0, 0.3), (6.0, 0.6), (2.0, 0.5)), (-20.0, -500.0, 1e9, 200.0, 30.0, float("inf"), float("-inf")), (0.5, 1.2))]
+PHYS = [(zm, z0, ws, us, L, sv) for zm, z0, (ws, us), L, sv in itertools.product((2.0, 5.0, 10.0, 30.0), (0.01, 0.1, 0.5), ((3.0, 0.3), (6.0, 0.6), (2.0, 0.5)), (-20.0, -500.0, 1e9, 200.0, 30.0, float("inf"), float("-inf"), -3.0, 5.0), (0.5, 1.2))]
 TYPES = {"float": float, "int": int, "np.int64": np.int64, "np.float64": np.float64, "np.int32": np.int32}
 
 
@@ -50,7 +50,7 @@ def _call(*a, **k):
     ey = np.arange(dom[3] - 0.5 * res, dom[2], -res)
     EX, EY = np.meshgrid(ex, ey)
     if np.shape(gx) != EX.shape or not (np.allclose(gx, EX, rtol=0, atol=1e-9) and np.allclose(gy, EY, rtol=0, atol=1e-9)):
-        raise _GridMismatch("returned cell centres are not those of the requested grid (domain %r, resolution %g): first centre (%r, %r), expected (%r, %r)" % (list(dom), res, np.ravel(gx)[0], np.ravel(gy)[0], EX[0, 0], EY[0, 0]))
+        raise _GridMismatch("returned cell centres are not those of the requested grid (domain %r, resolution %g): shape %s, expected %s; first centre (%.9g, %.9g), expected (%.9g, %.9g)" % (list(dom), res, np.shape(gx), EX.shape, np.ravel(gx)[0], np.ravel(gy)[0], EX[0, 0], EY[0, 0]))
     return gx, gy, f
 
 
@@ -76,8 +76,9 @@ def case_cells(chunk):
         if p["U"] <= 0:
             continue
         lab = "zm=%g z0=%g ws=%g ustar=%g L=%g sigma_v=%g" % (zm, z0, ws, us, L, sv)
-        for res, mxy in ((20.0, (10.0, -5.0)), (5.0, (0.0, 0.0))):
-            dom = [-60.0, 600.0, -300.0, 300.0]
+        # resolutions that are / are not binary fractions, extents that are / are not whole multiples of the resolution
+        for res, mxy, dom in ((20.0, (10.0, -5.0), [-60.0, 600.0, -300.0, 300.0]), (5.0, (0.0, 0.0), [-60.0, 600.0, -300.0, 300.0]),
+                              (0.7, (0.0, 0.0), [-1.4, 21.0, -7.0, 7.0]), (0.3, (0.3, 0.0), [0.0, 2.1, -2.1, 2.1]), (5.0, (0.0, 0.0), [-60.0, 601.0, -301.0, 301.0])):
             gx, gy, f = _call(zm, z0, ws, us, L, sv, dom, res, list(mxy))
             n += 1
             o, _ = km.footprint(gx - mxy[0], gy - mxy[1], zm, z0, ws, us, L, sv)
@@ -90,7 +91,8 @@ def case_cells(chunk):
                 v.append({"sub": "nonneg", "sig": "nonneg", "msg": "%s: negative footprint value %g" % (lab, f.min())})
             if np.any(f[(gx - mxy[0]) <= 0] != 0):
                 v.append({"sub": "downwind", "sig": "downwind", "msg": "%s: non-zero weight in a downwind cell" % lab})
-            if mxy[1] == 0.0 and np.abs(f - f[::-1, :]).max() > 1e-12 * sc:
+            # (only where the rows of cell centres mirror each other about the wind axis; gy was checked by _call)
+            if mxy[1] == 0.0 and np.allclose(gy[:, 0], -gy[::-1, 0], rtol=0, atol=1e-9) and np.abs(f - f[::-1, :]).max() > 1e-12 * sc:
                 v.append({"sub": "symmetry", "sig": "symmetry", "msg": "%s: footprint is not symmetric about the wind axis (%.2e)" % (lab, np.abs(f - f[::-1, :]).max() / sc)})
         # wind directions: square grid symmetric about the receptor
         dom = [-200.0, 200.0, -200.0, 200.0]
